@@ -497,6 +497,8 @@ pub struct ClientReq {
     pub read: Option<(String, RPolicy)>,
     pub rx: Option<MaybeCloneOneshotReceiver<std::result::Result<ClientResponse, tonic::Status>>>,
     pub outcome: ClientOutcome,
+    /// every (key, value) entry of a successful read response, in response order
+    pub read_entries: Vec<(Vec<u8>, Vec<u8>)>,
     pub invoked_at_event: usize,
     pub resolved_at_event: Option<usize>,
     pub invoked_ms: u64,
@@ -922,11 +924,14 @@ impl Cluster {
                             } else {
                                 match resp.result {
                                     Some(P::Write(w)) => ClientOutcome::WriteOk(w.succeeded),
-                                    Some(P::Read(r)) => ClientOutcome::ReadOk(
-                                        r.entries
-                                            .first()
-                                            .map(|e| String::from_utf8_lossy(&e.value).to_string()),
-                                    ),
+                                    Some(P::Read(r)) => {
+                                        c.read_entries = r.entries.iter().map(|e| (e.key.to_vec(), e.value.to_vec())).collect();
+                                        ClientOutcome::ReadOk(
+                                            r.entries
+                                                .first()
+                                                .map(|e| String::from_utf8_lossy(&e.value).to_string()),
+                                        )
+                                    }
                                     None => ClientOutcome::Err("empty".into()),
                                 }
                             }
@@ -1195,6 +1200,7 @@ impl Cluster {
                     read: Some((key.clone(), *pol)),
                     rx: if sent { Some(rx) } else { None },
                     outcome: if sent { ClientOutcome::Pending } else { ClientOutcome::Closed },
+            read_entries: vec![],
                     invoked_at_event: self.events_applied,
                     resolved_at_event: None,
                     invoked_ms: self.clock_ms,
@@ -1447,11 +1453,16 @@ impl Cluster {
 
     /// queue a read on the node's command channel without running its turn
     fn queue_read(&mut self, id: u32, key: &str, pol: RPolicy) -> Res<()> {
+        self.queue_read_keys(id, &[key], pol)
+    }
+
+    pub fn queue_read_keys(&mut self, id: u32, keys: &[&str], pol: RPolicy) -> Res<()> {
+        let key = keys.first().copied().unwrap_or("");
         let n = self.node(id).ok_or("node not up")?;
         let (tx, rx) = MaybeCloneOneshot::new();
         let req = ClientReadRequest {
             client_id: 1,
-            keys: vec![Bytes::from(key.to_string())],
+            keys: keys.iter().map(|k| Bytes::from(k.to_string())).collect(),
             consistency_policy: to_policy(pol),
         };
         let role = n.role_kind();
@@ -1465,6 +1476,7 @@ impl Cluster {
             read: Some((key.to_string(), pol)),
             rx: if sent { Some(rx) } else { None },
             outcome: if sent { ClientOutcome::Pending } else { ClientOutcome::Closed },
+            read_entries: vec![],
             invoked_at_event: self.events_applied,
             resolved_at_event: None,
             invoked_ms: self.clock_ms,
@@ -1492,6 +1504,7 @@ impl Cluster {
                 read: None,
                 rx: if sent { Some(rx) } else { None },
                 outcome: if sent { ClientOutcome::Pending } else { ClientOutcome::Closed },
+            read_entries: vec![],
                 invoked_at_event: self.events_applied,
                 resolved_at_event: None,
                 invoked_ms: self.clock_ms,
